@@ -1,14 +1,66 @@
-//! Operations for C13/C14 (see ops.rs). Fill in: return Some(outcome) for the ops this module owns.
+//! ZonedDateTime / TimeZone operations over synthetic zones (C13, C14).
 use crate::js::{self, big, int};
-use crate::ops::{utc, FS};
 use crate::proj::*;
+use crate::synth_tz::*;
 use serde_json::{json, Value};
+use std::str::FromStr;
 use temporal_rs::options::*;
 use temporal_rs::*;
 
+const SUB_NS: i64 = 123_456_789; // every value carries this sub-second part; operations must leave it alone
+
+fn rel_of(ns: i128) -> Value {
+    // relative whole seconds; the sub-second part must be SUB_NS
+    let sec = ns.div_euclid(1_000_000_000) - BASE_SEC as i128; let sub = ns.rem_euclid(1_000_000_000);
+    if sub as i64 != SUB_NS { return json!({"bad_subsecond": sub as i64, "sec": int(sec as i64)}); }
+    int(sec as i64)
+}
+fn abs_ns(t: i64) -> i128 { (t as i128 + BASE_SEC as i128) * 1_000_000_000 + SUB_NS as i128 }
+fn local_dt(w: i64) -> TemporalResult<PlainDateTime> {
+    let f = fields_of(w, SUB_NS);
+    PlainDateTime::try_new(f.0, f.1, f.2, f.3, f.4, f.5, f.6, f.7, f.8, iso())
+}
+fn dis(a: &Value) -> Disambiguation { Disambiguation::from_str(js::opt_s(a, "dis").unwrap_or("compatible")).expect("dis") }
+fn offopt(a: &Value) -> OffsetDisambiguation { OffsetDisambiguation::from_str(js::s(a, "offopt")).expect("offopt") }
+fn zdt(z: &Zone, t: i64) -> TemporalResult<ZonedDateTime> { ZonedDateTime::try_new(abs_ns(t), iso(), time_zone_for(z, false)) }
+fn offset_string(o: i64) -> String {
+    let s = if o < 0 { '-' } else { '+' }; let a = o.abs();
+    if a % 60 == 0 { format!("{}{:02}:{:02}", s, a / 3600, (a / 60) % 60) } else { format!("{}{:02}:{:02}:{:02}", s, a / 3600, (a / 60) % 60, a % 60) }
+}
+
 pub fn exec(op: &str, a: &Value) -> Option<Value> {
-    let _ = a;
-    match op {
-        _ => None,
-    }
+    if !op.starts_with("Zoned.") { return None; }
+    let z = Zone::from_json(&a["zone"]);
+    let p = SynthProvider::with_zone(z.clone());
+    Some(match op {
+        "Zoned.fromLocal" => run(|| local_dt(js::i(a, "w"))?.to_zoned_date_time_with_provider(&time_zone_for(&z, false), dis(a), &p), |x| rel_of(x.epoch_nanoseconds().as_i128())),
+        "Zoned.wall" => run(|| { let x = zdt(&z, js::i(a, "t"))?; let dt = x.to_plain_datetime_with_provider(&p)?; let off = x.offset_nanoseconds_with_provider(&p)?; Ok((dt, off)) }, |(dt, off)| {
+            let day = crate::gen::days_from_civil(dt.iso_year() as i64, dt.iso_month() as i64, dt.iso_day() as i64);
+            let w = day * 86_400 + (dt.hour() as i64 * 60 + dt.minute() as i64) * 60 + dt.second() as i64 - BASE_SEC;
+            let sub = (dt.millisecond() as i64 * 1000 + dt.microsecond() as i64) * 1000 + dt.nanosecond() as i64;
+            if sub != SUB_NS { return json!({"bad_subsecond": sub}); }
+            json!({"w": int(w), "off": int(*off as i64 / 1_000_000_000)})
+        }),
+        "Zoned.fromStr" => run(|| {
+            let f = fields_of(js::i(a, "w"), SUB_NS);
+            let year = if (0..=9999).contains(&f.0) { format!("{:04}", f.0) } else { format!("{}{:06}", if f.0 < 0 { '-' } else { '+' }, f.0.abs()) };
+            let off = match js::s(a, "offk") { "none" => String::new(), "z" => "Z".to_string(), _ => offset_string(js::i(a, "off")) };
+            let tz = time_zone_for(&z, false).identifier()?;
+            let s = format!("{}-{:02}-{:02}T{:02}:{:02}:{:02}.{:03}{:03}{:03}{}[{}]", year, f.1, f.2, f.3, f.4, f.5, f.6, f.7, f.8, off, tz);
+            ZonedDateTime::from_str_with_provider(&s, dis(a), offopt(a), &p)
+        }, |x| rel_of(x.epoch_nanoseconds().as_i128())),
+        "Zoned.startOfDay" => run(|| zdt(&z, js::i(a, "t"))?.start_of_day_with_provider(&p), |x| rel_of_plain(x.epoch_nanoseconds().as_i128())),
+        "Zoned.hoursInDay" => run(|| zdt(&z, js::i(a, "t"))?.hours_in_day_with_provider(&p), |h| json!(*h)),
+        "Zoned.add" => run(|| zdt(&z, js::i(a, "t"))?.add_with_provider(&arg_duration(&a["dur"])?, arg_ovf(a), &p), |x| rel_of(x.epoch_nanoseconds().as_i128())),
+        "Zoned.subtract" => run(|| zdt(&z, js::i(a, "t"))?.subtract_with_provider(&arg_duration(&a["dur"])?, arg_ovf(a), &p), |x| rel_of(x.epoch_nanoseconds().as_i128())),
+        "Zoned.until" => run(|| zdt(&z, js::i(a, "t"))?.until_with_provider(&zdt(&z, js::i(a, "other"))?, arg_settings(&a["st"])?, &p), p_duration),
+        "Zoned.since" => run(|| zdt(&z, js::i(a, "t"))?.since_with_provider(&zdt(&z, js::i(a, "other"))?, arg_settings(&a["st"])?, &p), p_duration),
+        _ => return None,
+    })
+}
+/// start of day: whole seconds, no sub-second part
+fn rel_of_plain(ns: i128) -> Value {
+    let sec = ns.div_euclid(1_000_000_000) - BASE_SEC as i128; let sub = ns.rem_euclid(1_000_000_000);
+    if sub != 0 { return json!({"bad_subsecond": sub as i64, "sec": int(sec as i64)}); }
+    int(sec as i64)
 }
